@@ -20,7 +20,8 @@ static void run(sqlite3 *db, const char *sql, int must) {
 int main(int argc, char **argv) {
   if (argc != 5) return 2;
   sqlite3 *db;
-  if (sqlite3_open(argv[1], &db) != SQLITE_OK) return 3;
+  /* argv[1] may be a file: URI (e.g. file:/path?psow=0 for a 4096 byte sector size) */
+  if (sqlite3_open_v2(argv[1], &db, SQLITE_OPEN_READWRITE | SQLITE_OPEN_URI, 0) != SQLITE_OK) return 3;
   char buf[256];
   snprintf(buf, sizeof buf, "PRAGMA journal_mode=%s", argv[2]);
   run(db, buf, 1);
